@@ -182,6 +182,8 @@ fn add_types_recursive(
     module: &naga::Module,
     ty: Handle<Type>,
 ) {
+    #[cfg(feature = "verif-hooks")]
+    crate::verif::point("walk:type");
     types.insert(ty);
 
     match &module.types[ty].inner {
